@@ -257,6 +257,10 @@ extern uint64_t g_cnt;
 #define V_CTOR_FAILED(p) ((g_cell_obj != OBJ(p) || CAT_TC || g_cell_st == ST_RAW) && V_LIVE_DELTA(0, 0) && \
                           (g_nalloc - pre_g.nalloc) + (g_nrealloc - pre_g.nrealloc) == g_ndealloc - pre_g.ndealloc && \
                           (g_blk_state == pre_g.blk_state || (pre_g.blk_state == BLK_NONE && g_blk_state == BLK_FREED)))
+/* two-operand operations that move or exchange buffers: a block that one of the operands owned before the call is owned by one
+ * of them afterwards or has been handed back -- never left outstanding without an owner (leak) */
+#define V_BLOCKS_CONSERVED(a, b) (!(pre_g.blk_state == BLK_ALLOCATED && ((pre_self.heap && pre_g.blk_obj == pre_self.data_obj) || (pre_o.heap && pre_g.blk_obj == pre_o.data_obj))) || \
+                                  g_blk_state == BLK_FREED || (V_HEAP(a) && OBJ(V_DATA(a)) == g_blk_obj) || (V_HEAP(b) && OBJ(V_DATA(b)) == g_blk_obj))
 /* a second container of the same type used as a source only: left exactly as it was */
 #define V_SRC_UNTOUCHED(o) (V_SIZE(o) == pre_o.size && V_CAPA(o) == pre_o.capa && V_DATA(o) == pre_o.data && \
                             (!PRE_TOK_IN(pre_g, pre_o, 0, pre_o.size) || (g_tok_on && g_tok_obj == pre_g.tok_obj && g_tok_off == pre_g.tok_off)))
